@@ -165,6 +165,16 @@ META.update({
                      "engine-level check that no package-level object is written on any explored path", "note": PNOTE},
 })
 
+META.update({
+    "C16": {"level": "bounded model checking: (config clause) NewParser of all seven types executed symbolically over the reflect model for every int64 field value: accepted iff the defaults-completed "
+                     "configuration verifies, no panic; (behaviour clause) the inductive-step and bounded-history harnesses of the parsers, the buffer and Wrap, in which every runtime check of the real "
+                     "code is a solver query, so 'never panics' and 'only documented errors' are decided for all inputs inside the bounds",
+            "note": "bounds: see evidence.bounds; reflect/json/fmt models are listed in evidence.assumptions. " + TRUST},
+    "C20": {"level": "bounded model checking over the reflect model: round trip through the real MarshalJSON/UnmarshalJSON/ParseJSON reflection code with a stub codec, Type mismatch rejection, Clone, "
+                     "SetDefaults idempotence, reported configuration of new parsers - for all int64 field values of all seven types",
+            "note": "JSON text semantics are outside (stub codec); see evidence.assumptions. " + TRUST},
+})
+
 NOT_APPLICABLE = {}
 
 
@@ -606,3 +616,61 @@ def spec_C19(tier):
     s["bounds"].update(b)
     s["reach"].update({"zzH_run" + k: ["end", "match"] for k in ("HP", "BHP", "DHP", "BDHP", "BUP", "GSAP", "OSAP")})
     return s
+
+
+# ---------------------------------------------------------------- configurations (C16, C20)
+
+CFG_TYPES = ["HP", "BHP", "DHP", "BDHP", "BUP", "GSAP", "OSAP"]
+CFG_ASSUME = ["package reflect is modelled over the engine's typed heap (ValueOf, Indirect, Type, NumField, Field, FieldByName, Int, SetInt, Set, StructField.Name; a missing field or an "
+              "unassignable type panics as in the real package)", "encoding/json is a stub codec: Marshal of a struct yields an opaque document carrying its field values (omitempty: zero "
+              "values are not written, the target keeps what it holds), Unmarshal copies fields by name, (Un)MarshalJSON methods are dispatched as the real package does; JSON text "
+              "(syntax errors, unknown keys, wrong JSON types, number ranges) is outside the model", "fmt.Errorf / errors.New return opaque non-nil errors", "64-bit int"]
+
+
+def cfg_jobs(tier, entries):
+    hb = 2 if tier == "quick" else 6
+    jobs = []
+    for e in entries:
+        for t, name in enumerate(CFG_TYPES):
+            jobs.append(J("%s-%s" % (e, name), "zzH_" + e, params={"type": t, "hbMax": hb}))
+    return jobs, {"configuration fields": "every integer field over all of int64; OSAP Cost in {\"\", \"XZCost\", another string}",
+                  "NewParser": "HashBits <= %d and BucketSize <= 4 where tables are allocated (negative values included); all seven types" % hb}
+
+
+def spec_C20(tier):
+    jobs, bounds = cfg_jobs(tier, ["cfgJSON", "cfgClone", "cfgDefaults", "cfgNewParser"])
+    jobs.append(J("pbInit", "zzH_pbInit", params={"P": 4, "CX": 2, "PB": 6, "LP": 4, "RD": 2}))
+    return {"jobs": jobs, "bounds": bounds, "assumptions": CFG_ASSUME,
+            "outside": ["arbitrary JSON documents (text level): syntax errors, unknown keys, wrong JSON types, out-of-range numbers", "'creates an identically behaving parser': reduces to determinism, C13",
+                        "HashBits above the bound in the NewParser comparison"],
+            "explanation": "for all seven types and all int64 field values: ParseJSON(json.Marshal(&cfg)) executes the real reflection copy loops both ways and must give the same type and fields; "
+                           "documents with a mismatching or unknown Type are rejected by every type's UnmarshalJSON and by ParseJSON; Clone is equal and independent; SetDefaults is idempotent and "
+                           "keeps non-zero fields; ParserConfig()/BufferConfig() of a new parser equal the defaults-completed configuration",
+            "reach": {"zzH_cfgJSON": ["end", "roundtrip"], "zzH_cfgNewParser": ["end", "accepted", "rejected"], "zzH_cfgClone": ["end"], "zzH_cfgDefaults": ["end"]}}
+
+
+def spec_C16(tier):
+    jobs, bounds = cfg_jobs(tier, ["cfgNewParser"])
+    base = {"P": 4, "CX": 2, "PB": 6, "LP": 4, "RD": 2}
+    jobs.append(J("pbInit", "zzH_pbInit", params=base))
+    for op in ("pbWrite", "pbReadFrom", "pbReset"):
+        for ld in range(5):
+            jobs.append(J("%s-ld%d" % (op, ld), "zzH_" + op, params=dict(base, ld=ld)))
+    j2, b2 = parse_jobs(tier, dl=1)
+    jobs += j2
+    bounds["behaviour: hash parsers"] = b2
+    j3, b3 = sap_jobs(tier, lite=True) if tier != "quick" else sap_jobs(tier, scripts=(0, 2, 4), lite=True)
+    jobs += j3
+    bounds["behaviour: GSAP/OSAP"] = b3
+    L, PB, BS, RD = (3, 4, 3, 2)
+    for ld in range(L + 1):
+        for w in range(ld + 1):
+            jobs.append(J("wrapStep-il2-ld%d-w%d" % (ld, w), "zzH_wrapStep", params={"L": L, "ld": ld, "w": w, "PB": PB, "BS": BS, "RD": RD, "inputLen": 2, "hashBits": 0}, loop_cap=400))
+    bounds["behaviour: Wrap"] = "one wrapped Parse from an arbitrary HP state (len(Data) <= %d, BufferSize <= %d) with a chunking / failing reader" % (L, PB)
+    return {"jobs": jobs, "bounds": bounds, "assumptions": CFG_ASSUME + PARSE_ASSUME + SAP_ASSUME,
+            "outside": ["HashBits at its maximum with table contents, memory exhaustion, inputs above 2 GiB (the 'n too large' panics of GSAP/OSAP need more than MaxInt32 buffered bytes)",
+                        "behaviour clause beyond the bounds of the shared runs (see C01, C03, C08, C14, C15)"],
+            "explanation": "config clause: NewParser executed symbolically for all int64 field values of all seven types: err == nil iff Verify(SetDefaults(cfg)) == nil, no panic path, accepted sizes in "
+                           "range. Behaviour clause: every bounds/slice/nil/division check on every path of the Write/ReadFrom/Reset/Parse/Shrink/wrapped-Parse harnesses is a solver query (no feasible "
+                           "panic), loops are bounded (unwinding failure = inconclusive), returned errors are the documented ones",
+            "reach": {"zzH_cfgNewParser": ["end", "accepted", "rejected"]}}
